@@ -192,3 +192,29 @@ func mapModel(chunks []map[string]any, out map[string]any) []failure {
 	}
 	return fails
 }
+
+func mapStrModel(chunks []map[string]string, out map[string]string) []failure {
+	if len(chunks) < 2 {
+		return nil
+	}
+	want := map[string]string{}
+	n := map[string]int{}
+	for _, c := range chunks {
+		for k, v := range c {
+			want[k] += v
+			n[k]++
+		}
+	}
+	keys := make([]string, 0, len(want))
+	for k := range want {
+		keys = append(keys, k)
+	}
+	sort.Strings(keys)
+	var fails []failure
+	for _, k := range keys {
+		if n[k] >= 2 && out[k] != want[k] {
+			fails = append(fails, mf("model-content", "key %q: result is %q, the chunks in arrival order are %q", k, out[k], want[k]))
+		}
+	}
+	return fails
+}
